@@ -328,6 +328,105 @@ def clause10_stack_arrays(ctx, P):
         raise AnalysisBroken("local byte arrays: %d functions, %d decided writes" % (nfun, n))
 
 
+def clause11_no_narrowing(ctx, P):
+    """counters and lengths keep their width: no store into a field of one of cjet's own structs truncates a computed value
+    (on the reference tree there is no such store at all; the only truncating field stores go into zlib's z_stream). A field
+    that is narrower than the arithmetic that feeds it wraps silently (table sizes, frame lengths, queued byte counts)."""
+    OWN_EXEMPT = ("struct.z_stream_s",)
+    bad = []
+    n = 0
+    for f in P.own_functions():
+        for i in f.all_insts():
+            if i.op != "store":
+                continue
+            t = P.term(f, i.a[1])
+            if t[0] != "field" or t[2] in OWN_EXEMPT or not t[2].startswith("struct."):
+                continue
+            n += 1
+            o = i.a[0]
+            if isinstance(o, int) and o >= f.nparams and f.insts[o].op == "trunc":
+                src = P.term(f, f.insts[o].a[0])
+                if src[0] != "const":
+                    bad.append((f, i, t, src))
+    for (f, i, t, src) in bad[:6]:
+        ctx.ob("C06.8 R-BOUND", f, Q.ordinal_site(f, i, P) + ":no-narrowing-store", False,
+               "%s.%s is narrower than the value stored into it (%s is truncated at %s): the field wraps where the computation does "
+               "not" % (t[2], t[3], fmt_term(src)[:80], i.loc))
+    ctx.ob("C06.8 R-BOUND", "own-structs", "no-narrowing-stores", not bad and n > 200,
+           "%d store(s) into own struct fields truncate a computed value" % len(bad))
+    # the largest accepted timeout converts without overflow: (upper bound of the refusal test) * (conversion factor) < 2^64,
+    # computed in double arithmetic like the program does
+    gt = P.fn("timer.c:get_timeout_in_nsec")
+    cv = P.fn("timer.c:convert_seconds_to_nsec")
+    bounds = []
+    for i in gt.all_insts():
+        if i.op == "fcmp" and i.pred in ("ogt", "ugt", "oge", "uge"):
+            r = P.term(gt, i.a[1])
+            if r[0] == "fp" and Q.mentions(P.term(gt, i.a[0]), lambda x: x[0] == "field" and x[3] == "valuedouble"):
+                bounds.append(r[1])
+    factor = None
+    for i in cv.all_insts():
+        if i.op == "fmul":
+            for a_ in i.a:
+                t = P.term(cv, a_)
+                if t[0] == "fp":
+                    factor = t[1]
+    kmax = max(bounds) if bounds else None
+    okmax = kmax is not None and factor is not None and kmax * factor < float(2 ** 64)
+    ctx.ob("C06.5 R-BOUND", gt, "largest-accepted-timeout-converts", okmax,
+           "timeouts up to %r s are accepted and multiplied by %r: that product is not below 2^64 in double arithmetic, so the conversion "
+           "of the largest accepted timeout to uint64_t is undefined" % (kmax, factor))
+
+
+# call sites of the reference tree that read a cJSON string without a type test of that very object in the same function, with
+# the reason why the object is a string there (confirmed by reading); keyed by function, callee and origin of the object
+VALUESTRING_REFERENCE = {
+    ("fetch.c:ids_equal", "strcmp", "param:id2"): "the two types are compared first and id1->type == cJSON_String is tested: id2 has the same type",
+    ("fetch.c:fill_path_elements", "duplicate_string", "param:matcher"): "create_matcher() selects this path only for the table row whose operand type is cJSON_String",
+    ("groups.c:add_group", "strcmp", "global:all_groups"): "all_groups only ever receives cJSON_CreateString() items (add_group)",
+    ("groups.c:get_groups", "strcmp", "global:all_groups"): "all_groups only ever receives cJSON_CreateString() items (add_group)",
+    ("router.c:calculate_size_for_routed_request_id", "snprintf", "param:origin_request_id"): "a numeric id prints as (null) with glibc; uniqueness comes from the counter and the address",
+    ("router.c:fill_routed_request_id", "snprintf", "param:origin_request_id"): "a numeric id prints as (null) with glibc; uniqueness comes from the counter and the address",
+}
+
+
+def clause12_valuestring(ctx, P):
+    """a cJSON item's valuestring is NULL unless the item is a string: wherever own code hands X->valuestring to a function,
+    X->type == cJSON_String is established for that X on every path (if-form or switch-form), or the site is one of the
+    reference tree's confirmed exceptions above"""
+    STR = Q.macro(P, "fetch.c", "cJSON_String")
+    n = 0
+    for f in P.own_functions():
+        for c in f.all_insts():
+            if c.op != "call" or not c.callee:
+                continue
+            nm = P.srcname_of(c.callee)
+            if nm.startswith(("llvm.", "log_")):
+                continue
+            for a in c.a:
+                b = Q.is_field_load(P.term(f, a), "struct.cJSON", "valuestring")
+                if b is None:
+                    continue
+                n += 1
+
+                def isstr(atom, pol, b=b):
+                    if atom[0] == "switch":
+                        return Q.is_field_load(atom[1], "struct.cJSON", "type") == b and atom[2] == STR
+                    if atom[0] != "cmp":
+                        return False
+                    return Q.is_field_load(atom[2], "struct.cJSON", "type") == b and atom[3] == ("const", STR) and Q._poleq(atom, pol)
+                if Q.must_pass(P, f, c.block, isstr):
+                    continue
+                origin = "param:" + b[2] if b[0] == "param" else ("global:" + next((x[1] for x in Q.subterms(b) if x[0] == "global"), "?")
+                                                                  if Q.mentions(b, lambda x: x[0] == "global") else fmt_term(b)[:60])
+                ref = VALUESTRING_REFERENCE.get((f.key, nm, origin))
+                ctx.ob("C06.9 R-NULL", f, "%s:%s:%s" % (Q.ordinal_site(f, c, P), nm, origin), ref is not None,
+                       "%s() is given %s->valuestring without %s->type == cJSON_String being established in %s: for a number, an object "
+                       "or null the pointer is NULL" % (nm, fmt_term(b)[:60], fmt_term(b)[:40], f.srcname) if ref is None else "reference exception: " + ref)
+    if n < 15:
+        raise AnalysisBroken("uses of cJSON valuestring as a call argument: %d" % n)
+
+
 def clause9_unmask(ctx, P):
     """unmask_payload: the length arithmetic of the aligned fast path does not wrap: every unsigned subtraction outside the
     loops (bytes before the first aligned word, number of whole words, bytes after the last) is non-negative on every path,
@@ -373,6 +472,8 @@ def run(ctx):
         P, cg = cfg.P, cfg.cg
         clause9_unmask(ctx, P)
         clause10_stack_arrays(ctx, P)
+        clause11_no_narrowing(ctx, P)
+        clause12_valuestring(ctx, P)
         clause1_snprintf(ctx, P)
         c16.clause6_slots(ctx, P, cg)
         c12.clause2_callbacks(ctx, P, cg)
